@@ -1506,6 +1506,11 @@ class BootstrapElectionModel(BaseElectionModel):
         n_train = reporting_units.shape[0]
         n_test = nonreporting_units.shape[0]
 
+        # we cannot know the county classification of unexpected units: as in BaseElectionModel, which sums
+        # the margins, they are left out of the classification tables (turnout must cover the same units)
+        if "county_classification" in aggregate:
+            unexpected_units = unexpected_units.iloc[:0]
+
         all_units = pd.concat([reporting_units, nonreporting_units, unexpected_units], axis=0)
 
         # if we want to aggregate to something that isn't postal_code we need to generate a temporary
@@ -1658,6 +1663,10 @@ class BootstrapElectionModel(BaseElectionModel):
         """
         n_train = reporting_units.shape[0]
         n_test = nonreporting_units.shape[0]
+
+        # see get_aggregate_predictions: unexpected units are not part of the classification tables
+        if "county_classification" in aggregate:
+            unexpected_units = unexpected_units.iloc[:0]
 
         all_units = pd.concat([reporting_units, nonreporting_units, unexpected_units], axis=0)
 
